@@ -607,8 +607,8 @@ def prim_case(draw):
         return {"kind": "prim", "prim": k, "c": c, "L": draw(st.sampled_from([0.0, 2.0, 15.0])), "r": r, "ir": r * draw(st.sampled_from([0.0, 0.5])),
                 "vertical": draw(st.booleans()), "tol": tol}
     if k == "fillet":
-        w, h = draw(st.sampled_from([6.0, 10.0, 30.0])), draw(st.sampled_from([6.0, 10.0, 30.0]))
-        radii = draw(st.lists(st.sampled_from([0.5, 1.0, 2.0, 1.9]), min_size=1, max_size=4))
+        w, h = draw(st.sampled_from([2.0, 6.0, 10.0, 30.0])), draw(st.sampled_from([2.0, 6.0, 10.0, 30.0]))
+        radii = draw(st.lists(st.sampled_from([0.5, 1.0, 2.0, 1.9, 3.0, 5.0]), min_size=1, max_size=4))   # incl. radii beyond half an edge
         return {"kind": "prim", "prim": k, "c": c, "w": w, "h": h, "radii": radii, "tol": tol}
     if k == "rectangle":
         return {"kind": "prim", "prim": k, "c": c, "d": [draw(coord), draw(coord)], "tol": tol}
@@ -732,7 +732,20 @@ def check_prim(ctx, case):
         radii = case["radii"]
         import flatmodel as fm
         corners = [(c[0], c[1]), (c[0] + w, c[1]), (c[0] + w, c[1] + h), (c[0], c[1] + h)]
-        # every vertex lies inside the rectangle, on an edge or on the fillet circle of its corner
+        # documented clamp (polygon.hpp): a radius larger than half the shortest adjacent edge is reduced to that size;
+        # the implementation leaves a tolerance-sized straight piece, so the reduced radius lies in [(e - tol)/2, e/2]
+        short = min(w, h)
+        eff = []
+        for i in range(4):
+            r = radii[i % len(radii)]
+            if r > 0.5 * (short - tol):
+                eff.append((0.5 * (short - tol), 0.5 * short, True))
+                labels.append("fillet_radius_clamped")
+            else:
+                eff.append((r, r, False))
+        # every vertex lies inside the rectangle, on an edge or on a circle tangent to both edges of its corner whose
+        # radius is the (clamped) requested one
+        used = {}
         for v in V:
             if not (c[0] - 1e-9 * sc <= v[0] <= c[0] + w + 1e-9 * sc and c[1] - 1e-9 * sc <= v[1] <= c[1] + h + 1e-9 * sc):
                 fail("vertex %s lies outside the original rectangle" % (v,))
@@ -741,16 +754,19 @@ def check_prim(ctx, case):
                 continue
             ok = False
             for i, cn in enumerate(corners):
-                r = radii[i % len(radii)]
-                r = min(r, w / 2, h / 2)
-                cc = (cn[0] + (r if cn[0] == c[0] else -r), cn[1] + (r if cn[1] == c[1] else -r))
-                if abs(math.hypot(v[0] - cc[0], v[1] - cc[1]) - r) < 1e-9 * sc:
+                a, b = abs(v[0] - cn[0]), abs(v[1] - cn[1])      # distances from the two edges of this corner
+                rr = (a + b) + math.sqrt(2 * a * b)                # radius of the tangent circle through v (near arc)
+                lo, hi, _ = eff[i]
+                if lo - 1e-9 * sc <= rr <= hi + 1e-9 * sc and a <= rr + 1e-9 * sc and b <= rr + 1e-9 * sc:
+                    if i in used and abs(used[i] - rr) > 1e-9 * sc:
+                        fail("corner %d is rounded with two different radii (%r and %r)" % (i, used[i], rr))
+                    used[i] = rr
                     ok = True
             if not ok:
-                fail("vertex %s is neither on an edge nor on a fillet arc of the requested radius" % (v,))
+                fail("vertex %s is neither on an edge nor on a fillet arc of the requested (or clamped) radius; radii %s, clamp band %s" % (v, radii, [(round(e[0], 6), round(e[1], 6)) for e in eff]))
         Vc = np.array(V + [V[0]], dtype=float)
         for i, cn in enumerate(corners):
-            r = radii[i % len(radii)]
+            r = used.get(i, eff[i][0])
             sx, sy = (1 if cn[0] == c[0] else -1), (1 if cn[1] == c[1] else -1)
             th = np.linspace(0, math.pi / 2, 201)
             C = np.stack([cn[0] + sx * r * (1 - np.cos(th)), cn[1] + sy * r * (1 - np.sin(th))], axis=1)
